@@ -224,7 +224,15 @@ func (mb *mbox) createDir() error {
 
 // removeDir removes the mailbox, plus empty higher level directories
 func (mb *mbox) removeDir() error {
-	// remove mailbox dir, including index file
+	// remove the index first: from then on the mailbox reads as empty, however far the removal
+	// of the rest gets
+	if _, err := os.Stat(mb.indexPath); err == nil {
+		crashPoint("mailbox-remove-index", mb.indexPath)
+		if err := os.Remove(mb.indexPath); err != nil {
+			return err
+		}
+	}
+	// remove mailbox dir and what is left in it
 	crashPoint("mailbox-removeall", mb.path)
 	if err := os.RemoveAll(mb.path); err != nil {
 		return err
